@@ -355,7 +355,9 @@ def run(tier):
     rep.rule = ("case = (scenario flavour, transport schedule on both endpoints, MITM re-framing mode); the scenario is "
                 "handshake + 700 B and 20 000 B exchanges (+ KeyUpdate in TLS 1.3) + close; compared with the unconstrained "
                 "run of the same scenario (outcomes, wire bytes, delivered data) and the per-endpoint socket-call trace is "
-                "validated by TLC; non-trivial = schedule differs from unconstrained and the reference handshake completed; "
+                "validated by TLC; the same scenario through the blocking calls (read/write, recv/recv_into/send/sendall, "
+                "makefile() objects) in two threads over a blocking socket with scheduled piece sizes is compared with the "
+                "generator run; non-trivial = schedule differs from unconstrained and the reference handshake completed; "
                 "distinct by (flavour, schedule, mitm)")
     rep.trusted = ["TLC 1.8", "scripted in-memory socket", "per-endpoint deterministic DRBG (makes wire bytes comparable)"]
     for cfg in ("cfg/Transport_mc.cfg", "cfg/Transport_mc2.cfg"):
@@ -432,6 +434,8 @@ def run(tier):
                     "n_events": len(ev), "events_head": ev[:14]})
     from . import c14asm
     c14asm.part(rep, tier)
+    from . import c14blk
+    c14blk.part(rep, tier, validate)
     rep.notes["scenario_runs"] = len(jobs)
     rep.notes["socket_events_validated"] = sum(len(t) for t in traces)
     return rep.finish()
